@@ -225,11 +225,31 @@ fn long_buffers(ctx: &Ctx, rep: &mut Report) {
                 // third shape: a window that grows over a lot of history (rows come BACK from
                 // the scrollback), one of those rows gets longer text, then a width change
                 if n >= 20 {
-                    for grow in [rows * 2 + 1, rows * 6, n.min(200) + rows] {
+                    let mut grows = vec![rows * 2 + 1, rows * 6, n.min(200) + rows];
+                    if n <= 2000 {
+                        // (the whole history back on the screen)
+                        grows.push(n * 2 + rows);
+                    }
+                    for grow in grows {
                         let mut vt = build_vt(cols, rows, None);
-                        let _ = vt.feed_str(&text);
+                        if n <= 2000 {
+                            for piece in text.split_inclusive('\n') {
+                                let _ = vt.feed_str(piece);
+                            }
+                        } else {
+                            let _ = vt.feed_str(&text);
+                        }
                         let _ = vt.resize(cols, grow);
-                        let _ = vt.feed_str(&format!("\x1b[{};1Hthis row has grown a lot xy\x1b[{};3H", grow / 3 + 1, grow));
+                        // (several rows, short ones among them, get text that is longer than what
+                        // they held - and still fits the row)
+                        let mut edit = String::new();
+                        for r in [2usize, 3, 5, grow / 7, grow / 3 + 1, grow / 3 + 2, grow / 2, grow / 2 + 1] {
+                            if r >= 1 && r < grow {
+                                edit.push_str(&format!("\x1b[{};1Hrow grown a lot {:03}", r, r % 1000));
+                            }
+                        }
+                        edit.push_str(&format!("\x1b[{};3H", grow));
+                        let _ = vt.feed_str(&edit);
                         let mut out = Out::default();
                         let t = format!("{} lines at 20x10, grown to 20x{}, a row rewritten", n, grow);
                         if !resize_checked(&mut vt, 9, grow, &mut out, &t) || !resize_checked(&mut vt, 31, rows, &mut out, &t) {
@@ -444,6 +464,7 @@ fn alpha_mix(cfg: &Cfg) -> Vec<Op> {
         c(Seq(vec![Cup(Some(1), Some(1)), Dl(None)])),
         c(Seq(vec![Cup(Some(2), Some(1)), Dl(None)])),
         c(Seq(vec![Cup(Some(99), Some(1)), Lf, Lf, Lf])),
+        c(Seq(vec![Cup(Some(99), Some(1)), lfs(12)])),
         c(Seq(vec![Decstbm(Some(2), Some(h as u32)), Cup(Some(99), Some(1)), Lf, Decstbm(None, None)])),
         c(Cuu(None)),
         c(Cud(None)),
